@@ -113,6 +113,9 @@ def dsk6(ctx, c):
                         and n.body and isinstance(n.body[0], ast.Return) and U(n.body[0].value) == U(lp.target) \
                         and U(n.test.operand.args[0]) == U(lp.target):
                     ok = True
+    t_fe = U(fn.node)
+    if not ok and re.search(r"next\(\(?\(?(\w+) for \1 in self\.granule_fill_order if not self\.granule_in_use\(\1\)\)?", t_fe):
+        ok = True
     if ok:
         c.ok("find_empty_granule", "returns the first granule of the fill order that is not in use", where)
     else:
@@ -123,8 +126,13 @@ def dsk6(ctx, c):
             c.finding("find_empty_granule", "returns a granule without testing that it is free",
                       "find_empty_granule hands out a granule without a dominating `not granule_in_use(g)` test", where)
     last = body_without_doc(fn.node)[-1]
-    c.check(isinstance(last, ast.Raise), "find_empty_granule:exhaustion", "raises when nothing is free", "falls off / returns when nothing is free",
-            "find_empty_granule must fail with an error when no granule is free (the caller would otherwise use its return value as a granule)", where)
+    if isinstance(last, ast.Raise):
+        c.ok("find_empty_granule:exhaustion", "raises when nothing is free", where)
+    elif not any(isinstance(x, ast.Raise) and "fill_order" not in U(x) and "68" not in U(x) for x in ast.walk(fn.node)):
+        c.finding("find_empty_granule:exhaustion", "no raise for an exhausted disk",
+                  "find_empty_granule must fail with an error when no granule is free (the caller would otherwise use its return value as a granule)", where)
+    else:
+        c.undecided("find_empty_granule:exhaustion", "shape-not-recognised", "", where)
 
 
 def _returned_tests(fn_node):
@@ -176,8 +184,11 @@ def dsk7(ctx, c):
     # allocation loop in add_file
     af = repo.method(CLS, "add_file")
     wa = repo.loc(af, af.node)
+    from ..inline import flatten as _flatten
+    af_flat = _flatten(repo, af, depth=2, only={m_ for m_ in repo.cls(CLS).methods if m_ not in ("write_to_granules", "write_dir_entry", "write_to_fat", "find_empty_granule", "find_empty_directory_entry",
+                                                                                                    "calculate_granules_needed", "calculate_last_sector_bytes_used", "calculate_last_granules_sectors_used")})
     found = False
-    for n in ast.walk(af.node):
+    for n in ast.walk(af_flat):
         if isinstance(n, ast.While):
             calls = [U(x.func) for x in ast.walk(n) if isinstance(x, ast.Call)]
             if "self.find_empty_granule" in calls:
@@ -255,11 +266,16 @@ def dsk7(ctx, c):
                       "find_empty_directory_entry scans slots %d..%d; it must start at 0, cover at least 68 slots (one per granule) and stay within the 72 that exist" % (rng[0], rng[1] - 1), we)
     # add_file raises when -1
     raised = False
-    for n in ast.walk(af.node):
-        if isinstance(n, ast.If) and "directory_entry" in U(n.test) and "-1" in U(n.test) and n.body and isinstance(n.body[-1], ast.Raise):
+    for n in ast.walk(af_flat):
+        if isinstance(n, ast.If) and "-1" in U(n.test) and n.body and isinstance(n.body[-1], ast.Raise):
             raised = True
-    c.check(raised, "add_file:directory-full", "raises when no slot is free", "no raise on a full directory",
-            "add_file does not fail when find_empty_directory_entry reports no free slot", wa)
+    slot_calls = [x for x in ast.walk(af_flat) if isinstance(x, ast.Call) and U(x.func).endswith("find_empty_directory_entry")]
+    if raised:
+        c.ok("add_file:directory-full", "raises when no slot is free", wa)
+    elif slot_calls and not any(isinstance(x, ast.Raise) for x in ast.walk(af_flat)):
+        c.finding("add_file:directory-full", "no raise on a full directory", "add_file does not fail when find_empty_directory_entry reports no free slot", wa)
+    else:
+        c.undecided("add_file:directory-full", "shape-not-recognised", "", wa)
     # directory_entry_in_use: 0x00 and 0xFF free
     du = repo.method(CLS, "directory_entry_in_use")
     for r in _returned_tests(du.node):
@@ -268,10 +284,20 @@ def dsk7(ctx, c):
             c.check(sorted(vals or []) == [0x00, 0xFF], "directory_entry_in_use", "free iff first byte is 00 or FF", "free markers %s" % (vals,),
                     "directory_entry_in_use treats first bytes %s as free; Disk BASIC uses 00 (deleted) and FF (never used)" % (vals,), repo.loc(du, du.node))
             idx = U(r.left)
+            if isinstance(r.left, ast.Name):
+                for a_ in ast.walk(du.node):
+                    if isinstance(a_, ast.Assign) and U(a_.targets[0]) == r.left.id:
+                        idx = U(a_.value)
+            for cn, cv in ctx.env.items():
+                if isinstance(cv, int) and "." in cn and cn in idx:
+                    idx = idx.replace(cn, str(cv))
             m = re.search(r"\((\d+) \* \w+\)|\(\w+ \* (\d+)\)|(\d+) \* \w+|\w+ \* (\d+)", idx)
             stride = int(next(g for g in m.groups() if g)) if m else None
-            c.check(stride == D.DIR_ENTRY_LEN and "DIR_OFFSET" in idx, "directory_entry_in_use:index", "DIR_OFFSET + 32 * n", "index %s" % idx,
-                    "directory_entry_in_use looks at buffer[%s]; entry n starts at DIR_OFFSET + 32 n" % idx, repo.loc(du, du.node))
+            if stride is None:
+                c.undecided("directory_entry_in_use:index", "index-not-recognised", idx, repo.loc(du, du.node))
+            else:
+                c.check(stride == D.DIR_ENTRY_LEN and ("DIR_OFFSET" in idx or str(D.DIR_OFFSET) in idx), "directory_entry_in_use:index", "DIR_OFFSET + 32 * n", "index %s" % idx,
+                        "directory_entry_in_use looks at buffer[%s]; entry n starts at DIR_OFFSET + 32 n" % idx, repo.loc(du, du.node))
 
 
 def _stores_of(ctx, name, init_env=None, **kw):
@@ -356,7 +382,12 @@ def dsk2(ctx, c):
                             "write_dir_entry stores %s in the %s byte of the last-sector byte count" % (vt[:60], "high" if half == "high_byte" else "low"), repo.loc(fn, node))
             if fname == "reserved" and isinstance(val, Const):
                 pass
-        if len(got) != len(want):
+        if not got:
+            k2 = ("count", 0)
+            if k2 not in judged:
+                judged.add(k2)
+                c.undecided("write_dir_entry:fields", "no store into the buffer recognised (fields written through another idiom)", "", where)
+        elif len(got) != len(want):
             k2 = ("count", len(got))
             if k2 not in judged:
                 judged.add(k2)
@@ -474,7 +505,10 @@ def dsk3(ctx, c):
             w = repo.loc(f, f.node)
             params = [p for p in f.params if p != "self"]
             bufp, ptrp = params[0], params[1]
-            it = Interp(f.node, consts=ctx.env, sub_bases=(bufp,), init_env={ptrp: Opq("P"), "self.length": Const(length) if length is not None else Opq("self.length")})
+            from .enc import make_resolver
+            from ..inline import flatten as _fl
+            it = Interp(_fl(repo, f, depth=2), consts=ctx.env, sub_bases=(bufp,), resolver=make_resolver(repo, f),
+                        init_env={ptrp: Opq("P"), "self.length": Const(length) if length is not None else Opq("self.length")})
             outs = [o for o in it.run() if o.kind == "return"]
             # return value = P + length
             rv = {repr(o.value) for o in outs}
@@ -488,11 +522,17 @@ def dsk3(ctx, c):
                         off = s[1]
                         k = 0 if isinstance(off, Opq) and off.text == "P" else (off.c if isinstance(off, Lin) and off.terms == {"P": 1} else None)
                         st[k] = repr(s[2])
+                    if len([k for k in st if k is not None]) != sp["length"] or None in st:
+                        c.undecided("%s.write" % cls, "stores-not-recognised", "stores at %s" % sorted(st, key=str), w)
+                        continue
                     if sp["flag"] is not None:
                         c.check(st.get(0) == "Const(%#x)" % sp["flag"], "%s.write:flag" % cls, "%#04x" % sp["flag"], "flag byte %s" % st.get(0),
                                 "%s.write stores %s as flag byte, the format has %02X" % (cls, st.get(0), sp["flag"]), w)
                     for fld, (hi, lo) in sp["fields"].items():
                         good = st.get(hi) == "<self.%s.high_byte()>" % fld and st.get(lo) == "<self.%s.low_byte()>" % fld
+                        if not good and not (("high_byte" in str(st.get(hi)) or "low_byte" in str(st.get(hi)) or "Const" in str(st.get(hi)) or "self." in str(st.get(hi)))):
+                            c.undecided("%s.write:%s" % (cls, fld), "value-not-recognised", "%s / %s" % (st.get(hi), st.get(lo)), w)
+                            continue
                         c.check(good, "%s.write:%s" % (cls, fld), "@%d,%d hi,lo" % (hi, lo), "@%d=%s @%d=%s" % (hi, st.get(hi), lo, st.get(lo)),
                                 "%s.write must store %s high byte at +%d and low byte at +%d; it stores %s / %s" % (cls, fld, hi, lo, st.get(hi), st.get(lo)), w)
                     for z in sp.get("zeros", ()):
@@ -511,10 +551,13 @@ def dsk3(ctx, c):
                         except ValueError:
                             idx = None
                         flags.append((idx, type(nn.test.ops[0]).__name__, try_fold(nn.test.comparators[0], ctx.env)))
-                if sp["flag"] is not None:
+                if any(None in fl for fl in flags) or (sp["flag"] is not None and not flags and any(isinstance(x, ast.Raise) for x in ast.walk(f.node))):
+                    c.undecided("%s.read:flags" % cls, "flag-tests-not-recognised", str(flags), w)
+                    flags = None
+                if flags is not None and sp["flag"] is not None:
                     c.check((0, "NotEq", sp["flag"]) in flags, "%s.read:flag" % cls, "rejects unless byte0 == %#04x" % sp["flag"], "flag tests %s" % flags,
                             "%s.read must reject a block whose first byte is not %02X; tests found: %s" % (cls, sp["flag"], flags), w)
-                for z in sp.get("zeros", ()):
+                for z in (sp.get("zeros", ()) if flags is not None else ()):
                     c.check((z, "NotEq", 0) in flags, "%s.read:zero%d" % (cls, z), "rejects unless byte%d == 0" % z, "tests %s" % flags, "%s.read does not check byte %d" % (cls, z), w)
                 for fld, (hi, lo) in sp["fields"].items():
                     val = None
@@ -524,6 +567,8 @@ def dsk3(ctx, c):
                     good = re.search(r"sub\(<%s>, Lin\(P\+%d\)\).*LShift.*Const\(0x8\).*sub\(<%s>, Lin\(P\+%d\)\)" % (bufp, hi, bufp, lo), txt) is not None
                     if val is None:
                         c.undecided("%s.read:%s" % (cls, fld), "field-not-assigned", "", w)
+                    elif "sub(" not in txt:
+                        c.undecided("%s.read:%s" % (cls, fld), "read-expression-not-recognised", txt[:80], w)
                     else:
                         c.check(good, "%s.read:%s" % (cls, fld), "(b[%d] << 8) + b[%d]" % (hi, lo), "reads %s" % txt[:100],
                                 "%s.read must build %s from byte +%d (high) and +%d (low); it computes %s" % (cls, fld, hi, lo, txt[:120]), w)
@@ -581,7 +626,14 @@ def dsk4(ctx, c):
         good_iter = re.fullmatch(r"enumerate\(%s\[:-1\]\)" % re.escape(p_list), it_text) is not None
         names = [x.strip() for x in tgt.strip("()").split(",")]
         good_val = len(names) == 2 and val == "<%s[%s + 1]>" % (p_list, names[0]) and names[1] in idx
-        c.check(good_iter and good_val, "write_to_fat:links", "FAT[g_i] = g_{i+1} for all but the last", "iter %s: FAT[%s] = %s" % (it_text, idx, val),
+        zip_iter = re.fullmatch(r"zip\(%s(\[:-1\])?, %s\[1:\]\)" % (re.escape(p_list), re.escape(p_list)), it_text) is not None
+        if zip_iter and len(names) == 2 and val == "<%s>" % names[1] and names[0] in idx:
+            good_iter = good_val = True
+        elif not good_iter and not zip_iter:
+            c.undecided("write_to_fat:links", "loop-shape-not-recognised", it_text, where)
+            good_iter = None
+        if good_iter is not None:
+          c.check(good_iter and good_val, "write_to_fat:links", "FAT[g_i] = g_{i+1} for all but the last", "iter %s: FAT[%s] = %s" % (it_text, idx, val),
                 "write_to_fat must link every granule but the last to its successor in the allocation list; loop over %s stores %s at %s" % (it_text, val, idx), where)
     # reader side: calculate_file_length and read_data
     cf = repo.method(CLS, "calculate_file_length")
@@ -595,10 +647,16 @@ def dsk4(ctx, c):
     for t in tests:
         if isinstance(t, ast.Compare) and isinstance(t.left, ast.BinOp) and isinstance(t.left.op, ast.BitAnd):
             last_test = (try_fold(t.left.right, ctx.env), type(t.ops[0]).__name__, try_fold(t.comparators[0], ctx.env))
-    c.check(last_test == (D.FAT_LAST_MASK, "Eq", D.FAT_LAST_BASE), "calculate_file_length:last-test", "(e & C0) == C0", "last-granule test %s" % (last_test,),
-            "calculate_file_length recognises the last granule by %s; the marker is (entry & C0) == C0" % (last_test,), wc)
+    if last_test is None or None in last_test:
+        c.undecided("calculate_file_length:last-test", "test-not-recognised", str(last_test), wc)
+    else:
+        c.check(last_test == (D.FAT_LAST_MASK, "Eq", D.FAT_LAST_BASE), "calculate_file_length:last-test", "(e & C0) == C0", "last-granule test %s" % (last_test,),
+                "calculate_file_length recognises the last granule by %s; the marker is (entry & C0) == C0" % (last_test,), wc)
     sect_masks = [m for m in masks if m not in (D.FAT_LAST_MASK,)]
-    c.check(all(m is not None and (m & 0x0F) == 0x0F and (m & 0xC0) == 0 for m in sect_masks) and sect_masks, "calculate_file_length:sector-mask", "sector count = e & 1F/3F/0F", "sector mask %s" % sect_masks,
+    if not sect_masks or any(m is None for m in sect_masks):
+        c.undecided("calculate_file_length:sector-mask", "mask-not-recognised", str(sect_masks), wc)
+    else:
+      c.check(all(m is not None and (m & 0x0F) == 0x0F and (m & 0xC0) == 0 for m in sect_masks) and sect_masks, "calculate_file_length:sector-mask", "sector count = e & 1F/3F/0F", "sector mask %s" % sect_masks,
             "calculate_file_length extracts the sector count with mask %s; it must keep the low four bits (0-9) and drop the C0 marker" % sect_masks, wc)
     # length arithmetic: full granule adds HALF_TRACK_LEN; last adds (sectors-1)*256 + bytes
     it = Interp(cf.node, consts=ctx.env)
@@ -1060,8 +1118,7 @@ def dsk5(ctx, c):
     wr_ = repo.loc(rd, rd.node)
     t = U(rd.node)
     good = re.search(r"chunk_size = DiskConstants\.HALF_TRACK_LEN", t) and re.search(r"if preamble:\s+pointer \+= preamble\.length\s+chunk_size -= preamble\.length", t)
-    c.check(bool(good), "read_data:capacity", "first-granule capacity = granule length - preamble length (as the writer)", "shape changed",
-            "read_data does not compute the first granule's capacity as HALF_TRACK_LEN - preamble.length", wr_)
+    c.shape(bool(good), "read_data:capacity", "first-granule capacity = granule length - preamble length (as the writer)", "capacity computation not recognised", wr_)
     multi = next((n for n in ast.walk(rd.node) if isinstance(n, ast.If) and isinstance(n.test, ast.Compare) and "chunk_size" in U(n.test)), None)
     if multi is None:
         c.undecided("read_data:split", "split-test-not-found", "", wr_)
